@@ -16,10 +16,16 @@ open Rsa.Dataset
 variable {α β γ : Type}
 
 theorem Lbl.le_total' (a b : Lbl) : (Lbl.le a b || Lbl.le b a) = true := by
-  cases a <;> cases b <;> simp [Lbl.le] <;> exact _root_.le_total _ _
+  cases a <;> cases b <;> simp [Lbl.le, Lbl.rank] <;> exact _root_.le_total _ _
 
 theorem Lbl.le_trans' (a b c : Lbl) : Lbl.le a b = true → Lbl.le b c = true → Lbl.le a c = true := by
-  cases a <;> cases b <;> cases c <;> simp [Lbl.le] <;> exact _root_.le_trans
+  cases a <;> cases b <;> cases c <;> simp [Lbl.le, Lbl.rank] <;> exact _root_.le_trans
+
+/-- the filter of `subset_time` (the comparison chain generated from the source text) is
+    `t_from ≤ t ≤ t_to`, both ends inclusive -/
+theorem between_eq (lo t hi : Lbl) : Lbl.between lo t hi = (Lbl.le lo t && Lbl.le t hi) := by
+  cases lo <;> cases t <;> cases hi <;>
+    simp [Lbl.between, Lbl.numVal, subsetTimeKeep_eq, Lbl.le]
 
 theorem zipIdx_map_sel [DecidableEq β] {δ : Type} (col : List β) (F : β → Nat → List Nat → δ) :
     (uniqueFirst col).zipIdx.map (fun p => F p.1 p.2 (selectionOf col p.2))
@@ -218,15 +224,18 @@ theorem varyKeys_sub {d : DS α} {by_ : String} {parts : List (DS α)}
   intro k hk
   by_contra hne
   cases hparts : parts with
-  | nil => simp [hparts, varyKeys] at hk
+  | nil => simp [hparts, varyKeys, sharedKeys] at hk
   | cons p0 rest =>
     rw [hparts] at hk
-    simp only [varyKeys, List.mem_filter, Bool.not_eq_true', List.all_eq_false] at hk
-    obtain ⟨_, s, hs, hneq⟩ := hk
-    have h1 := splitObs_desc_lookup hp hne s (by rw [hparts]; exact hs)
-    have h2 := splitObs_desc_lookup hp hne p0 (by rw [hparts]; simp)
-    rw [h1, h2] at hneq
-    simp at hneq
+    simp only [varyKeys, List.mem_filter, Bool.not_eq_true'] at hk
+    have hsame : sameEverywhere (p0 :: rest) k = true := by
+      apply sameEverywhere_iff.2
+      intro s hs
+      have h1 := splitObs_desc_lookup hp hne s (by rw [hparts]; exact hs)
+      have h2 := splitObs_desc_lookup hp hne p0 (by rw [hparts]; simp)
+      rw [h1, h2]
+    rw [hsame] at hk
+    simp at hk
 
 /-- `merge(split_obs(d))` keeps every observation descriptor column of `d` (other than a
     promoted one), re-indexed by the same permutation σ as the measurement rows -/
